@@ -15,6 +15,9 @@ import (
 // Returns ct.False if the input is invalid (not an odd prime).
 func NewOddPrimeSquare(oddPrimeFactor *numct.Nat) (m *OddPrimeSquare, ok ct.Bool) {
 	allOk := oddPrimeFactor.IsProbablyPrime() & oddPrimeFactor.IsOdd()
+	if allOk == ct.False {
+		return nil, ct.False
+	}
 
 	p, ok := numct.NewModulus(oddPrimeFactor)
 	allOk &= ok
@@ -80,6 +83,9 @@ func NewOddPrimeSquareFactors(firstPrime, secondPrime *numct.Nat) (m *OddPrimeSq
 	allOk &= ok
 	q, ok := NewOddPrimeSquare(secondPrimeClone)
 	allOk &= ok
+	if allOk == ct.False {
+		return nil, ct.False
+	}
 
 	crtModN, ok := crt.NewParamsExtended(p.Factor, q.Factor)
 	allOk &= ok
